@@ -85,6 +85,10 @@ def lem_struct_cong(kind, a, b, n):
                                   BLKS[kind + 'out'](a, n) == BLKS[kind + 'out'](b, n)))
 
 
+fld_operator = z3.Function('fld_operator', Op, Op)
+cls_of = z3.Function('cls', Op, z3.IntSort())     # class tag: index into the real class table (closed world)
+
+
 def Red(l, r):
     m = fresh_int('m')
     return z3.Exists([m], z3.And(m >= 0, m < REGLEN, Chk(REG[m], l, r), Apl(REG[m], l, r)))
@@ -255,12 +259,30 @@ class AlgTheory(Theory):
             return denc(o)
         if name == 'reduce':
             return PyFunc(lambda interp: self.reduce_contract(interp, o), 'Op.reduce')
+        if name == 'operator':
+            dual = self.op_isinstance(interp, o, ClassRef(self.P.cls('_AbstractLazyDualOperator')))
+            if not interp.run.branch(dual):
+                interp.raise_('AttributeError', 'operator')
+            return fld_operator(o)
         raise Unsupported(f'attribute {name} of an operator of unknown class')
 
     def reduce_contract(self, interp, o):
         """callee contract of X.reduce() for an operator of unknown class = C01's own postcondition (same map, same
         structures), as a function so that repeated calls agree; its axioms are `reduce_axioms()`"""
         return reduced(o)
+
+    def class_ids(self):
+        if not hasattr(self, '_ids'):
+            base = self.P.cls('AbstractLinearOperator')
+            names = sorted(c.fullname for c in self.P.subclasses(base, concrete_only=True))
+            self._ids = {n: i for i, n in enumerate(names)}
+        return self._ids
+
+    def class_axioms(self):
+        o = z3.Const('o!cls', Op)
+        ids = self.class_ids()
+        return [z3.ForAll([o], z3.And(isHom(o) == (cls_of(o) == ids[self.cls_hom.fullname]),
+                                      isId(o) == (cls_of(o) == ids[self.cls_id.fullname])), patterns=[cls_of(o)])]
 
     def op_isinstance(self, interp, v, c):
         if is_z3(v) and v.sort() == Op:
@@ -269,7 +291,9 @@ class AlgTheory(Theory):
                     return isHom(v)
                 if c.info == self.cls_id:
                     return isId(v)
-                raise Unsupported(f'isinstance(<Op>, {c.info.name})')
+                ids = self.class_ids()
+                subs = [ids[d.fullname] for d in self.P.subclasses(c.info, concrete_only=True) if d.fullname in ids]
+                return z_or(*[cls_of(v) == i for i in subs])
             return False if not isinstance(c, (ClassRef,)) and not hasattr(c, 'path') else None
         return None
 
@@ -286,6 +310,18 @@ class AlgTheory(Theory):
         interp.run.assume(z3.And(isHom(o), z3.Not(isId(o)), denw(o) == EMPTY, denc(o) == to_z3(value), ins(o) == s,
                                  outs(o) == s, insize(o) == ssize(s), outsize(o) == ssize(s)))
         return o
+
+    # ---- `l @ r` on operators of unknown class: callee contract of __matmul__ (proved in C02)
+    def symobj_dunder(self, interp, obj, name, args):
+        if name in ('__matmul__', '__rmatmul__') and len(args) == 1 and is_z3(args[0]) and args[0].sort() == Op:
+            l, r = (obj, args[0]) if name == '__matmul__' else (args[0], obj)
+            if not interp.run.branch(ins(l) == outs(r)):
+                interp.raise_('ValueError', 'Incompatible linear operator structures')
+            p = fresh_const('prod', Op)
+            interp.run.assume(z3.And(denw(p) == z3.Concat(denw(l), denw(r)), denc(p) == denc(l) * denc(r),
+                                     ins(p) == ins(r), outs(p) == outs(l)))
+            return p
+        return B.NOT_IMPLEMENTED
 
     # ---- rules of unknown class (the rule contract)
     def rule_getattr(self, interp, r, name):
@@ -466,7 +502,23 @@ def den_of(interp, v):
             arr = arr_of(run, seq)
             n = to_z3(seq.length)
             return z3.RealVal(1), BLKW[kind](arr, n), BLKS[kind + 'in'](arr, n), BLKS[kind + 'out'](arr, n)
+        if name in TRUE_INVERSES or name == 'DiagonalInverseOperator':
+            c, w, i_, o_ = den_of(interp, v.fields['operator'])
+            if name == 'DiagonalInverseOperator':
+                # pseudo-inverse of a diagonal: equals the inverse only when no entry vanishes (not known here)
+                return z3.Real(fresh_name('pinvc')), pinvw(w), o_, i_
+            return 1 / c, invw(w), o_, i_
     raise Unsupported(f'denotation of {v!r}')
+
+
+invw = z3.Function('invw', Word, Word)            # word of the inverse
+pinvw = z3.Function('pinvw', Word, Word)          # word of the Moore-Penrose pseudo-inverse (no cancellation law)
+TRUE_INVERSES = ('InverseOperator', 'AbstractLazyInverseOrthogonalOperator', 'QURotationTransposeOperator')
+
+
+def lem_inverse_cancels(w, c):
+    """LA3: inv f ∘ f = id = f ∘ inv f (f invertible)"""
+    return z3.And(z3.Concat(invw(w), w) == EMPTY, z3.Concat(w, invw(w)) == EMPTY, c != 0)
 
 
 def same_map(interp, a, b):
@@ -496,3 +548,25 @@ def block_structure_contracts():
         return contract
     return {'furax._base.blocks.AbstractBlockOperator.in_structure': mk('in'),
             'furax._base.blocks.AbstractBlockOperator.out_structure': mk('out')}
+
+
+RES_KIND = {('Row', 'Diag'): 'Row', ('Diag', 'Col'): 'Col', ('Diag', 'Diag'): 'Diag', ('Row', 'Col'): 'Sum'}
+
+
+def lem_LA4(kl, kr, l, r, p, n):
+    """LA4 block-matrix products: row∘diag = row, diag∘col = col, diag∘diag = diag of the block-wise products;
+    row∘col = the sum of the block-wise products"""
+    k = fresh_int('k')
+    hyp = z3.ForAll([k], z3.Implies(z3.And(k >= 0, k < n), z3.And(denw(p[k]) == z3.Concat(denw(l[k]), denw(r[k])),
+                                                                 denc(p[k]) == denc(l[k]) * denc(r[k]))))
+    res = RES_KIND[(kl, kr)]
+    lhs = z3.Concat(BLKW[kl](l, n), BLKW[kr](r, n))
+    if res == 'Sum':
+        return z3.Implies(hyp, z3.And(lhs == Sw(p, n), Sc(p, n) == 1))
+    return z3.Implies(hyp, lhs == BLKW[res](p, n))
+
+
+def lem_tree_struct_injective(f, a, g, b, n, sel_a, sel_b):
+    """two containers' structure trees are equal iff they have the same layout and leaf-wise equal structures"""
+    k = fresh_int('k')
+    return z3.Implies(f(a, n) == g(b, n), z3.ForAll([k], z3.Implies(z3.And(k >= 0, k < n), sel_a(a[k]) == sel_b(b[k]))))
